@@ -42,6 +42,9 @@ type recLog struct {
 	late     []recEvent
 	endsFail bool // every EndEdit after the injected fault fails with errSentinel2
 	faulted  bool
+	// the same call made a second time through the same selection, without a fault (c12Case.Again)
+	second    *recLog
+	secondErr error
 }
 
 var errSentinel2 = errors.New("injected failure of EndEdit after an earlier failure")
@@ -170,6 +173,9 @@ type c12Case struct {
 	Trigger string `json:"trigger,omitempty"`
 	// EndsFail: from the injected fault on, every EndEdit callback fails too (a second, different error)
 	EndsFail bool `json:"endsFail,omitempty"`
+	// Again: after the call with the injected fault the same call is made once more through the same selection, with
+	// nothing failing: the pairing must hold for that call as well
+	Again bool `json:"again,omitempty"`
 	// FaultAt: 0 = enumerate every position (the normal mode); > 0 only that position (replay of a shrunk failure)
 	FaultAt int `json:"faultAt"`
 }
@@ -234,36 +240,52 @@ func c12Exec(c c12Case, mm *meta.Module, k int) (*recLog, error, string) {
 			}
 			return wrapRec(dm.NewRS(en, dm.CloneTree(c.Source)), log, nodeSide)
 		}
-		switch {
-		case c.Op == "upsert" && c.Into:
-			apiErr = sel.UpsertInto(mkSrc())
-		case c.Op == "insert" && c.Into:
-			apiErr = sel.InsertInto(mkSrc())
-		case c.Op == "update" && c.Into:
-			apiErr = sel.UpdateInto(mkSrc())
-		}
-		if c.Into {
-			return
-		}
-		switch c.Op {
-		case "upsert":
-			apiErr = sel.UpsertFrom(mkSrc())
-		case "insert":
-			apiErr = sel.InsertFrom(mkSrc())
-		case "update":
-			apiErr = sel.UpdateFrom(mkSrc())
-		case "delete":
-			apiErr = sel.Delete()
-		case "replace":
-			pn, _, _ := dm.ParentOf(root, c.Target, c.Entry)
-			last := c.Entry[len(c.Entry)-1]
-			var src node.Node
-			if last.Key != nil {
-				src = wrapRec(dm.NewRSList(pn, pn.Child(last.Name), dm.Tree{last.Name: []interface{}{dm.Clone(c.Source)}}), log, "source")
-			} else {
-				src = wrapRec(dm.NewRS(pn, dm.Tree{last.Name: dm.Clone(c.Source)}), log, "source")
+		op := func() error {
+			var opErr error
+			switch {
+			case c.Op == "upsert" && c.Into:
+				opErr = sel.UpsertInto(mkSrc())
+			case c.Op == "insert" && c.Into:
+				opErr = sel.InsertInto(mkSrc())
+			case c.Op == "update" && c.Into:
+				opErr = sel.UpdateInto(mkSrc())
 			}
-			apiErr = sel.ReplaceFrom(src)
+			if c.Into {
+				return opErr
+			}
+			switch c.Op {
+			case "upsert":
+				opErr = sel.UpsertFrom(mkSrc())
+			case "insert":
+				opErr = sel.InsertFrom(mkSrc())
+			case "update":
+				opErr = sel.UpdateFrom(mkSrc())
+			case "delete":
+				opErr = sel.Delete()
+			case "replace":
+				pn, _, _ := dm.ParentOf(root, c.Target, c.Entry)
+				last := c.Entry[len(c.Entry)-1]
+				var src node.Node
+				if last.Key != nil {
+					src = wrapRec(dm.NewRSList(pn, pn.Child(last.Name), dm.Tree{last.Name: []interface{}{dm.Clone(c.Source)}}), log, "source")
+				} else {
+					src = wrapRec(dm.NewRS(pn, dm.Tree{last.Name: dm.Clone(c.Source)}), log, "source")
+				}
+				opErr = sel.ReplaceFrom(src)
+			}
+			return opErr
+		}
+		apiErr = op()
+		if c.Again && k > 0 {
+			// the same call once more through the same selection, this time with nothing failing: what the first
+			// call left behind in the selection must not show
+			first := *log
+			log.events, log.seq, log.faultAt, log.faulted, log.endsFail, log.late, log.apiDone = nil, 0, -1, false, false, nil, false
+			err2 := op()
+			second := *log
+			second.apiDone = true
+			*log = first
+			log.second, log.secondErr = &second, err2
 		}
 	}()
 	log.apiDone = true
@@ -433,6 +455,15 @@ func c12Run(c c12Case, o *hx.Obs) {
 		if k <= len(lg.events) {
 			o.Class("fault=%s/%s", lg.events[k-1].Kind, lg.events[k-1].Side)
 		}
+		if lg.second != nil {
+			o.Class("the same call again through the same selection after the fault")
+			if !c12Check(o, c, lg.second, lg.secondErr, "", 0, true) {
+				if failed++; failed >= 3 {
+					return
+				}
+				continue
+			}
+		}
 		if !c12Check(o, c, lg, e, p, k, true) {
 			// the fault positions after this one are still looked at: a recorded finding at an early position must not
 			// hide what later ones show
@@ -509,6 +540,7 @@ func c12Gen(t *rapid.T) c12Case {
 	}
 	c.Trigger = rapid.SampledFrom([]string{"", "", "", "passive", "begin-fails", "end-fails"}).Draw(t, "trigger")
 	c.EndsFail = rapid.IntRange(0, 3).Draw(t, "ends-fail") == 0
+	c.Again = rapid.IntRange(0, 2).Draw(t, "again") == 0
 	return c
 }
 
